@@ -289,7 +289,7 @@ theorem updateRdata_sat (thr off type : Nat) {d1 : Bytes} {namePtr dataEnd : Nat
     · somega
 
 theorem updateLoop_sat (thr off : Nat) : ∀ (n : Nat) (data : Bytes) (ptr : Nat),
-    (updateLoop thr off n data ptr).sat (fun d => d.length = data.length)
+    (updateLoop thr off n data ptr).sat (fun r => r.1.length = data.length)
   | 0, data, ptr => by unfold updateLoop; somega
   | n + 1, data, ptr => by
     unfold updateLoop
